@@ -266,20 +266,21 @@ pub(crate) fn decouple_v_models(
 }
 
 pub(crate) fn transform_text(text: &str) -> String {
-    let jsx_text_value = text.replace('\t', " ");
-    let mut jsx_text_lines = jsx_text_value.lines().enumerate().peekable();
+    // Same algorithm as Babel's `cleanJSXElementLiteralChild`: only spaces and
+    // tabs that touch a line break are removed.
+    let jsx_text_value = text.replace('\t', " ").replace("\r\n", "\n");
+    let jsx_text_lines = jsx_text_value.split(['\n', '\r']).collect::<Vec<_>>();
+    let last_index = jsx_text_lines.len() - 1;
 
     let mut lines = vec![];
-    while let Some((index, line)) = jsx_text_lines.next() {
-        let line = if index == 0 {
-            // first line
-            line.trim_end()
-        } else if jsx_text_lines.peek().is_none() {
-            // last line
-            line.trim_start()
-        } else {
-            line.trim()
-        };
+    for (index, line) in jsx_text_lines.into_iter().enumerate() {
+        let mut line = line;
+        if index != 0 {
+            line = line.trim_start_matches(' ');
+        }
+        if index != last_index {
+            line = line.trim_end_matches(' ');
+        }
         if !line.is_empty() {
             lines.push(line);
         }
